@@ -28,6 +28,7 @@ var harnesses = map[string]harnessSpec{
 	"loader": {PkgDir: ".", Template: "loader_replay_test.go.txt", FileName: "zz_verif_loader_replay_test.go"},
 	"arch":   {PkgDir: "arch", Template: "arch_replay_test.go.txt", FileName: "zz_verif_arch_replay_test.go"},
 	"profiler": {PkgDir: "cmd/seccomp-profiler", Template: "profiler_replay_test.go.txt", FileName: "zz_verif_profiler_replay_test.go"},
+	"sandbox":  {PkgDir: "cmd/sandbox", Template: "sandbox_replay_test.go.txt", FileName: "zz_verif_sandbox_replay_test.go"},
 }
 
 // runOverlayTest runs `go test -overlay` in the package with the harness injected.
@@ -110,14 +111,18 @@ func runHarness(e *Engine, harness string, witness []byte) (bool, string) {
 var propHarness = map[string]string{
 	"C01": "policy", "C02": "policy", "C03": "policy", "C04": "policy", "C05": "policy", "C06": "policy", "C07": "policy",
 	"C16": "disasm", "C14": "text", "C13": "text", "C12": "arch", "C09": "loader", "C10": "loader", "C11": "loader", "C08": "loader",
-	"C17": "profiler", "C18": "profiler", "C19": "arch",
+	"C17": "profiler", "C18": "profiler", "C19": "arch", "C15": "sandbox",
 }
+
+// propHarness2: a second family for properties that span two packages.
+var propHarness2 = map[string]string{"C14": "sandbox"}
 
 // kindsFor: which disagreement kinds of the family count as a failing input for the property.
 var kindsFor = map[string][]string{
 	"C01": {"decision", "fault"}, "C02": {"decision"}, "C03": {"decision"}, "C04": {"decision", "fault"},
 	"C05": {"kernel-verifier", "return-set", "fault"}, "C06": {"decision", "fault", "valid-rejected"},
 	"C07": {"panic", "invalid-accepted", "error-with-program", "valid-rejected"},
+	"C15": {"policy-truncated", "config-parse", "roundtrip-assemble"},
 	"C14": {"roundtrip", "marshal", "config-parse", "config-unpack", "roundtrip-assemble", "action-roundtrip", "operation-roundtrip", "unknown-action", "action-accepts-garbage", "operation-case", "action-case"},
 	"C13": {"nondeterministic-text", "caller-policy-modified", "compile-differs", "recompile-differs", "compilations-influence-each-other", "result-overwritten"},
 	"C12": {"inverse", "alias", "unsupported", "panic"},
@@ -136,8 +141,17 @@ var familyCache = map[string][]map[string]interface{}{}
 // findFailingInput looks for an input of the real code that exhibits the failed obligation:
 // the property's witness family is enumerated against the real code (in-package test injected by overlay).
 func (e *Engine) findFailingInput(prop, id string, obs []*Obligation, tier string, seed int) (bool, interface{}) {
-	hn, ok := propHarness[prop]
-	if !ok {
+	found, wit := e.findFailingInputIn(propHarness[prop], prop, tier, seed)
+	if !found && propHarness2[prop] != "" {
+		if f2, w2 := e.findFailingInputIn(propHarness2[prop], prop, tier, seed); f2 {
+			return f2, w2
+		}
+	}
+	return found, wit
+}
+
+func (e *Engine) findFailingInputIn(hn, prop, tier string, seed int) (bool, interface{}) {
+	if _, ok := harnesses[hn]; !ok {
 		return false, nil
 	}
 	h := harnesses[hn]
